@@ -29,9 +29,9 @@ ALL = {
           "Coq proof (refinement: incremental propagation = from-scratch recomputation, induction over histories) + correspondence + oracle from the input"),
  "C05": E("proof", "Coq theorems (Props/C05.v): total = sum of terms, terms = recomputation from routes, unplanned penalty = penalties of exactly the units not on routes, history independence. " + ENGINE_TIE,
           "Coq proof (invariant scores_ok/colls_ok) + correspondence (exact term values per step) + oracle"),
- "C06": E("proof", "Coq theorems (Props/C06.v) over ALL operator-result oracles and ALL schedules of the parallel-solver LTS: delivered scores strictly decreasing, first = (min) start score, last = best, nothing lost at close; Reset-to-better refuted and excluded by hypothesis. Tie: best-tracking projection of the skeletons regenerated from solve_solver.go / solve_solver_parallel.go equals the reviewed reference (Coq obligation each run) + score sequences of the real solver under many option sets.",
-          "Coq proof on protocol model + regenerated-skeleton obligations + recorded channel traces",
-          "the LTS is hand-written; its relation to the code is the fingerprint equality and the traces, not a proof."),
+ "C06": E("proof", "Coq theorems (Props/C06.v) over ALL operator-result oracles and ALL schedules of the parallel-solver LTS: delivered scores strictly decreasing, first = (min) start score, last = best, nothing lost at close; Reset-to-better refuted and excluded by hypothesis. Tie: the REAL solver loop (NewSkeletonSolver: Solve/invoke/Reset) driven by a scripted operator vs the extracted SolverLoop.srun on generated operator scripts (scores sent, best, work); best-tracking projection of the skeletons regenerated from solve_solver.go / solve_solver_parallel.go equals the reviewed reference (Coq obligation each run); score sequences of the real solver under many option sets.",
+          "Coq proof on protocol model + differential correspondence of the real loop under scripted operators + regenerated-skeleton obligations + recorded channel traces",
+          "the LTS is hand-written; its relation to the code is the scripted-loop correspondence, the fingerprint equality and the traces, not a proof."),
  "C07": E("proof", "Coq theorems (Props/C07.v): exec_move / unplan_unit either succeed completely or leave routes, cached values, scores exactly and collections as sets unchanged; the undo never fails on reachable states. " + ENGINE_TIE + "Failed calls of the implementation are compared snapshot-for-snapshot with the preceding state.",
           "Coq proof (rollback = identity under the engine invariant) + correspondence on rollback-heavy histories (moves built without estimates)"),
  "C08": E("proof", "Coq theorems (Props/C08.v): planned/unplanned partition, no duplicates, planned iff all stops on routes, unplanned iff none, on all reachable states. " + ENGINE_TIE,
@@ -42,25 +42,25 @@ ALL = {
  "C10": E("proof", "Coq theorems (Props/C10.v): combine_ascending / generate enumerate exactly the acceptable gap tuples (no duplicates); the order sampler is sound for every Perm tape and complete (exactly the allowed orders, once each) when the sample budget suffices, for the current code; the pre-fix code is refuted (stale direct successor); single-stop selection is executable iff some position is allowed and returns a minimum-cost allowed position, for all coin tapes. Tie: position generator and order generator of /repo (8 seeds) vs the extracted Model/Search.v on states of generated histories; Solution.BestMove vs a brute-force enumeration through NewMoveStops.",
           "Coq proof (enumeration = specification, sampler soundness/completeness over all tapes) + differential generator sets + brute-force comparison on the implementation",
           "estimates are parameters (taken from the implementation's own NewMoveStops); PlanAll groups are planned greedily by design and are outside the property's wording."),
- "C11": E("proof", "Coq theorems (Props/C11.v): in a heap model of Copy, fresh treatment of every mutable field implies copy and original observe the same at copy time and are independent under all later writes; an aliased field refutes it. Tie: the field table of solutionImpl/Copy regenerated from /repo equals the reference and satisfies the discipline (Coq obligations each run) + copy-then-mutate histories with snapshots of every live solution vs the model.",
+ "C11": E("proof", "Coq theorems (Props/C11.v): in a heap model of Copy, fresh treatment of every mutable field implies copy and original observe the same at copy time and are independent under all later writes; an aliased field refutes it. Tie: the field table of solutionImpl/Copy regenerated from /repo (with the source field of every copied slice) equals the reference and satisfies the discipline (Coq obligations each run) + copy-then-mutate histories with snapshots (incl. the cached slack) of every live solution vs the model; a copy must equal its original when taken.",
           "Coq proof (heap model, frame) + regenerated-table obligation + differential histories",
           "that Go operations write only through their own solution is checked dynamically, not proved; concurrent use is left to the race detector (C14 thorough)."),
- "C12": E("proof", "Coq theorems (Props/C12.v): a random stream shared by the order-generator goroutine and its consumer gives schedule-independent draws exactly when no phase has draws on both sides; refuted otherwise (witness). Tie: skeleton of SequenceGeneratorChannel / sequenceGenerator regenerated each run; repeated identical runs of the real solver. The unchanged code shares the stream: known finding.",
+ "C12": E("proof", "Coq theorems (Props/C12.v): a random stream shared by the order-generator goroutine and its consumer gives schedule-independent draws exactly when no phase has draws on both sides; refuted otherwise (witness). Tie: skeletons of SequenceGeneratorChannel / sequenceGenerator / the start-solution construction (no Copy inside its goroutines) regenerated each run; repeated identical runs of the real solver, also with 2-4 start solutions and goroutine timing perturbed per repetition. The unchanged code shares the stream in the order generator: known finding.",
           "Coq proof (positive + refutation) + regenerated-skeleton obligation + repeated runs"),
  "C13": E("proof", "Coq theorems (Props/C13.v): what the cycle barrier orders; barrier is not quiescence (two schedules, different finals: refutation); one run / one cycle is schedule independent. Tie: hand-off projection of the regenerated skeleton. Known finding on the unchanged tree.",
           "Coq proof of refutation + partial positive theorem + regenerated-skeleton obligation + repeated runs"),
- "C14": E("proof", "Coq theorems (Props/C14.v): the lockset checker is complete for its definition; mutex exclusion. The checker is evaluated (vm_compute) on the skeletons regenerated from /repo each run: every shared variable with conflicting accesses and no common mutex is reported; listed ones are known findings, any other is a violation. Thorough: Go race detector.",
+ "C14": E("proof", "Coq theorems (Props/C14.v): the lockset checker is complete for its definition; mutex exclusion. The checker is evaluated (vm_compute) on the skeletons regenerated from /repo each run: every shared variable with conflicting accesses and no common mutex is reported; listed ones are known findings, any other is a violation. sync.Pool buffers: Props/Pool.v (an accepted borrower uses the buffer only between Get and Put on every path; under that discipline concurrent borrowers never hold or use the same buffer), the borrow programs of all pool users are regenerated from /repo and checked (Oblig/O_C14_pool.v). Go race detector: thorough tier, and as the search for a schedule when an obligation breaks.",
           "Coq-evaluated lockset discipline on regenerated skeletons + proof of checker completeness / mutex exclusion",
           "partial: happens-before through channels is not credited; callee-internal races only via the race detector."),
- "C15": E("proof", "Coq theorems (Props/C15.v) for ALL schedules and budgets of the parallel-solver LTS: performed <= budget, reported = performed, parallelism bound, closed is final, every state can close within a bounded number of steps after cancellation, zero budget, barrier. Tie: protocol projection of the regenerated skeletons + option grid on the real solver with event counts and close times.",
+ "C15": E("proof", "Coq theorems (Props/C15.v) for ALL schedules and budgets of the parallel-solver LTS: performed <= budget, reported = performed, parallelism bound, closed is final, every state can close within a bounded number of steps after cancellation, zero budget, barrier. Tie: the REAL parallel solver (NewSkeletonParallelSolver) with scripted factories vs the extracted SolverLoop.pinit/prun (iterations granted per started solver, counted at End and in run.Data, solutions delivered); protocol projection of the regenerated skeletons; option grid on the real solver with event counts and close times.",
           "Coq proof (invariants over the LTS) + regenerated-skeleton obligations + option-grid runs",
           "partial: wall-clock 'shortly after' checked with slack; Go timers/scheduler not modelled."),
  "C16": E("proof", "Coq theorems (Props/C16.v): on well-dimensioned inputs the modelled engine core never falls back to a lookup default: every stop on every reachable route is a declared stop, every matrix lookup is in range. PARTIAL: the reflection-heavy decoding/validation glue of the factory is covered only by the differential crash search (corpus of past crashes, structured full-feature stream, malformed stream through NewModel / NewSolution / ParallelSolver.Solve), which is not a proof.",
           "Coq proof for the modelled core + crash search (structured and malformed JSON streams) on the implementation",
           "partial: factory glue, API-built models and features outside the modelled core are searched, not proved."),
- "C18": E("proof", "Coq theorems (Props/C18.v): on every reachable state, executing a move and un-planning the unit again restores routes, cached values, scores exactly and collections as sets, and the un-plan cannot fail; a probe sequence preserves the solution. Tie: check.SolutionCheck at each verbosity on states of generated histories: the snapshot afterwards must equal the model's unchanged state; units reported plannable are re-planned on a copy taken before the check.",
+ "C18": E("proof", "Coq theorems (Props/C18.v): on every reachable state, executing a move and un-planning the unit again restores routes, cached values, scores exactly and collections as sets, and the un-plan cannot fail; a probe sequence preserves the solution. Tie: check.SolutionCheck at each verbosity on states of generated histories: the snapshot afterwards must equal the model's unchanged state; units reported plannable are re-planned on a copy taken before the check; a nested stage with stop groups and user constraints whose estimates are optimistic (the check then executes best moves that fail).",
           "Coq proof (execute-then-unplan = identity on observables) + differential snapshots around check.SolutionCheck",
-          "states with planned nested units are not generated yet; the solution's random source is not observable."),
+          "nested units are generated on removal-safe models only (elsewhere the non-atomic group un-plan, findings N1-N4, makes the probe non-invertible); alternates are not generated; the solution's random source is not observable."),
  "C19": E("proof", "Coq theorems (Props/C19.v): user constraints are part of the modelled input (bounds on cached fields, per stop or per vehicle, estimate always 'not violated'); on every reachable state every user constraint holds; a rejected move or un-plan restores the solution. Tie: real ModelConstraint implementations in the harness (exact check only) vs the model on histories of checked and unchecked moves and on real solver runs; oracle: the user predicate on every snapshot.",
           "Coq proof (engine invariant with user checks, all-or-nothing) + differential histories with real custom constraints + oracle",
           "user constraints of the DSL family (stop-level and vehicle-level bounds on cached fields); solution-level checks and data updaters are not modelled."),
@@ -98,7 +98,7 @@ m = {
  "setup_cmd": "bin/setup",
  "hooks": {"guard": "verif", "enable": "go build -tags verif (the harness in /verif/harness is always built with the tag; hooks live in /repo/verif_*.go)",
            "baseline_off_cmd": "cd /repo && go test -mod=mod -vet=off -count=1 -timeout 25m ./...",
-           "source_commits": ["967b7cd"], "add_only": True},
+           "source_commits": ["967b7cd", "13383c3"], "add_only": True},
  "engines": [
    {"name": "coq", "path": "/verif/coq", "serves_properties": sorted(CLAIMED), "kind_free_text": "Coq 8.16.1 development: executable Gallina models, proofs, property theorems"},
    {"name": "correspondence", "path": "/verif/bin/check", "serves_properties": sorted(CLAIMED), "kind_free_text": "Go harness vs extracted OCaml model on generated cases; oracle search for failing inputs"},
